@@ -13,7 +13,7 @@ from .common import L, short
 
 ID = "C11"
 RUNS = {"quick": 240_000, "thorough": 4_000_000}
-BUDGET_S = {"quick": 55, "thorough": 780}
+BUDGET_S = {"quick": 120, "thorough": 780}
 CHUNK = 2000
 RULE = ("each run draws a token tree (<= 40 tokens, depth <= 5) and a layout (blanks, tabs, LF/CRLF, ';' comments at "
         "line start/end/between tokens, case, non-ASCII inside comments), has a simulated writer put it on disk under a "
@@ -192,7 +192,8 @@ def run(ctx):
         flags.add(f"giant-{len(text) >> 20}MiB")
     data = text.encode("utf-8")
     want = sexpr.read_one(text)  # the generator only makes well-formed complete texts
-    assert big < 40 or giant or want == lower_tree(tree)
+    if not (big < 40 or giant or want == lower_tree(tree)):
+        raise RuntimeError("harness: reference reading of a generated text differs from its tree")
     # ---- the writer
     plan = ["ack", "ack", "error", "crash", "append-form", "append-paren", "drop-paren", "crash"][f.draw(8)]
     if giant:
